@@ -105,6 +105,9 @@ func (sp *spec) split(t string) (fields []string, ok bool) {
 func (sp *spec) join(fields []string) string {
 	switch sp.outMode {
 	case "c", "t":
+		if len(fields) == 1 && fields[0] == "" {
+			return `""` // a row that is a single empty field is written quoted (an empty line would be no row)
+		}
 		var buf bytes.Buffer
 		w := csv.NewWriter(&buf)
 		if sp.outMode == "t" {
